@@ -202,6 +202,9 @@ def run(prop, tier, seed):
             hist["line:" + l[0]] += 1
         got = out.decode("utf-8", "replace")
         gerr = err.decode("utf-8", "replace")
+        if C.timed_out(m):
+            hist["evaluator-timeout-skipped"] += 1
+            continue
         mev, mend = parse_model_line(m)
         sev, send = spec_events(h, cn)
         hist["end:" + send.split(":")[0]] += 1
